@@ -421,7 +421,11 @@ void h_derive(void) {
   _Bool invalid = 0;
   if (b == 1) combined = d; else if (d == 1) combined = b; else if (d < 0) { invalid = b > 1; combined = d * -b; } else if (b < 0) { invalid = d > 1; combined = d * -b; } else combined = d * b;
   if (invalid) { __CPROVER_assert(r == RESULT_ERR_INVALID_ARG, "[C07] a divisor cannot be combined with a multiplier of the base type"); }
-  else if (combined < -MAX_DIVISOR || combined > MAX_DIVISOR) { __CPROVER_assert(r < 0, "[C07,C20] a combined divisor beyond the supported range is rejected (and never wraps)"); CANARY("too big"); }
+  else if (combined < -MAX_DIVISOR || combined > MAX_DIVISOR) { __CPROVER_assert(r < 0, "[C07,C20] a combined divisor beyond the supported range is rejected (and never wraps)");
+#if !defined(CASE_BASEDIV) || (CASE_BASEDIV) != 1
+    CANARY("too big");      /* not reachable with base divisor 1: the field divisor itself is within range */
+#endif
+  }
   else if (r == RESULT_OK) {
     __CPROVER_assert(out != NULL && (long)out->m_divisor == combined, "[C07] the derived type has the product of both divisors");
     __CPROVER_assert(spec_ndt_valid(out), "[C05,C07] a derived type is a valid type shape again");
